@@ -496,6 +496,7 @@ fn components() -> Value {
             "reqwest, HttpServer, TCP: replaced by SimClient over the same handlers (broker engines) and by sim/src/simhttp.rs under the shipped uistv1_client::Client (engine e2, one run in three: URL formats, bodies and decoding of the real client run); jurav1_client::Client is not driven",
             "TestClient is not the broker's client in engines e3/e4 (SimClient is: eager/direct mode is behaviourally the same, with the server state visible and the delivery schedulable)",
             "OS thread scheduling and std::sync::Mutex (engine e5): replaced by baton passing under a seeded chooser",
+            "time: the tokio clock is paused and advanced only by the simulator (slow deliveries); the code under test has no timers of its own, dataset dates are the only other time there is",
             "Penelope::random (thread_rng), from_binance, source::*: replaced by the seeded market model",
             "`now` on the Direct path (AppState has no such method): harness-side copy of TestClient::now"
         ]
